@@ -193,6 +193,17 @@ class Image:
             return self.sym_addr(v[1])
         if k in ("null", "zero", "undef", "none"):
             return 0
+        if k == "float":
+            import struct as _st
+
+            t0 = self.layout.resolve(t)
+            txt = v[1]
+            if txt.startswith("0x"):
+                return int(txt, 16)  # LLVM prints doubles (and floats, widened) as raw double bits
+            bits = _st.unpack("<Q", _st.pack("<d", float(txt)))[0]
+            if t0[0] == "float" and t0[1] == "float":
+                bits = _st.unpack("<I", _st.pack("<f", float(txt)))[0]
+            return bits
         if k == "cgep":
             base = self.const_value(IR.PTR, v[2])
             return (base + self._gep_offset_const(v[1], v[3])) & M64
@@ -256,7 +267,7 @@ class Image:
                 self._init(addr + i * es, t0[2], v[1])
             return
         val = self.const_value(t, v)
-        n = (self.layout.store_bits(t) + 7) // 8
+        n = self.layout.size(t) if t0[0] == "float" else (self.layout.store_bits(t) + 7) // 8
         for i in range(n):
             b = (val >> (8 * i)) & 0xFF
             if b:
@@ -372,9 +383,25 @@ class Machine:
         self.depth = 0
         self.trace_calls = False
         self.fn_counts = {}
+        self.arrays = []  # [base, end, z3 Array(BV64 -> BV8)] objects in array mode (symbolic indices)
+        self.allocas = []  # (base, size) of live stack allocations
+        self.symbolic_alloc = {}  # allocation size -> name: heap blocks of that size start with arbitrary (symbolic) contents
+        self.sym_alloc_seq = 0
 
     # ---------------------------------------------------------------- memory
+    def _array_for(self, addr):
+        for obj in self.arrays:
+            if obj[0] <= addr < obj[1]:
+                return obj
+        return None
+
     def load_bytes(self, addr, n):
+        if self.arrays:
+            obj = self._array_for(addr)
+            if obj is not None:
+                parts = [z3.Select(obj[2], z3.BitVecVal(addr + i, 64)) for i in range(n)]
+                t = z3.simplify(z3.Concat(*reversed(parts)) if n > 1 else parts[0])
+                return t.as_long() if z3.is_bv_value(t) else t
         mem = self.mem
         cells = [mem.get(addr + i, 0) for i in range(n)]
         if all(type(c) is int for c in cells):
@@ -406,6 +433,13 @@ class Machine:
         return z3.simplify(z3.Concat(*reversed(parts)))
 
     def store_bytes(self, addr, v, n):
+        if self.arrays:
+            obj = self._array_for(addr)
+            if obj is not None:
+                tv = to_term(v, 8 * n) if type(v) is int or v.size() == 8 * n else (z3.ZeroExt(8 * n - v.size(), v) if v.size() < 8 * n else z3.Extract(8 * n - 1, 0, v))
+                for i in range(n):
+                    obj[2] = z3.Store(obj[2], z3.BitVecVal(addr + i, 64), z3.Extract(8 * i + 7, 8 * i, tv))
+                return
         mem = self.mem
         if type(v) is int:
             for i in range(n):
@@ -423,6 +457,104 @@ class Machine:
         for i in range(n):
             mem[addr + i] = (sv, i)
 
+    def find_object(self, a):
+        """(base, size) of the allocation containing concrete address a."""
+        for obj in self.arrays:
+            if obj[0] <= a < obj[1]:
+                return obj[0], obj[1] - obj[0]
+        for base, size in reversed(self.allocas):
+            if base <= a < base + size:
+                return base, size
+        if a >= HEAP_BASE:
+            best = None
+            for base, size in self.heap_sizes.items():
+                if base <= a < base + max(size, 1) and (best is None or base > best[0]):
+                    best = (base, size)
+            if best:
+                return best
+        if GLOBAL_BASE <= a < self.img.global_end:
+            for name, base in self.img.gaddr.items():
+                size = self.layout.size(self.mod.globals[name]["type"])
+                if base <= a < base + max(size, 1):
+                    return base, size
+        return None
+
+    def to_array_mode(self, base, size):
+        for obj in self.arrays:
+            if obj[0] == base:
+                return obj
+        arr = z3.K(z3.BitVecSort(64), z3.BitVecVal(0, 8))
+        mem = self.mem
+        if size <= 65536:
+            keys = range(base, base + size)
+        else:
+            keys = [k for k in mem if base <= k < base + size]
+        for a in keys:
+            c = mem.get(a)
+            if c is None or c == 0:
+                continue
+            if type(c) is int:
+                t = z3.BitVecVal(c, 8)
+            elif type(c) is tuple:
+                t = z3.Extract(8 * c[1] + 7, 8 * c[1], c[0])
+            else:
+                t = c
+            arr = z3.Store(arr, z3.BitVecVal(a, 64), t)
+        obj = [base, base + size, arr]
+        self.arrays.append(obj)
+        return obj
+
+    def sym_access(self, p, n):
+        """Symbolic address p (BV64) accessed for n bytes -> the array-mode object it points into
+        (KLEE-style single-object resolution; other feasible objects are reached by forking)."""
+        eng = core.engine()
+        sp = z3.simplify(p)
+        if z3.is_bv_value(sp):
+            return sp.as_long(), None
+        # a feasible concrete value picks the candidate object
+        if not eng._check():
+            raise core.Inconclusive("path condition became unsatisfiable")
+        mdl = eng.solver.model()
+        a0 = mdl.eval(sp, model_completion=True).as_long()
+        found = self.find_object(a0)
+        if found is None:
+            raise Unsupported(f"symbolic pointer may point outside every allocation (sample {a0:#x})")
+        base, size = found
+        inside = z3.And(z3.UGE(sp, z3.BitVecVal(base, 64)), z3.ULE(sp + z3.BitVecVal(n, 64), z3.BitVecVal(base + size, 64)),
+                        z3.ULE(sp, sp + z3.BitVecVal(n, 64)))
+        if eng.decide(inside):
+            return sp, self.to_array_mode(base, size)
+        # the pointer leaves that object on this path: try again (another object / out of bounds)
+        return self.sym_access(p, n)
+
+    def load_sym(self, p, t):
+        t0 = self.layout.resolve(t)
+        if t0[0] not in ("int", "ptr"):
+            return self.load_typed(self.resolve_addr(p), t)
+        bits = t0[1] if t0[0] == "int" else 64
+        n = (bits + 7) // 8
+        a, obj = self.sym_access(p, n)
+        if obj is None:
+            return self.load_typed(a, t)
+        parts = [z3.Select(obj[2], a + z3.BitVecVal(i, 64)) for i in range(n)]
+        v = z3.Concat(*reversed(parts)) if n > 1 else parts[0]
+        return z3.Extract(bits - 1, 0, v) if bits % 8 else v
+
+    def store_sym(self, p, t, v):
+        t0 = self.layout.resolve(t)
+        if t0[0] not in ("int", "ptr"):
+            return self.store_typed(self.resolve_addr(p), t, v)
+        bits = t0[1] if t0[0] == "int" else 64
+        n = (bits + 7) // 8
+        a, obj = self.sym_access(p, n)
+        if obj is None:
+            return self.store_typed(a, t, v)
+        tv = to_term(v, bits)
+        if bits % 8:
+            tv = z3.ZeroExt(8 * n - bits, tv)
+        for i in range(n):
+            obj[2] = z3.Store(obj[2], a + z3.BitVecVal(i, 64), z3.Extract(8 * i + 7, 8 * i, tv))
+
     def resolve_addr(self, p):
         if type(p) is int:
             return p
@@ -436,6 +568,7 @@ class Machine:
     def alloc_stack(self, size, align):
         a = (self.sp + align - 1) // align * align
         self.sp = a + max(size, 1)
+        self.allocas.append((a, size))
         return a
 
     def malloc(self, size, align=16, zero=False):
@@ -444,6 +577,17 @@ class Machine:
         a = (self.heap + align - 1) // align * align
         self.heap = a + max(size, 1)
         self.heap_sizes[a] = size
+        name = self.symbolic_alloc.get(size)
+        if name is not None:
+            # this block starts with arbitrary contents: array mode over a fresh z3 array, indexed by offset
+            self.sym_alloc_seq += 1
+            base_arr = z3.Array(name if self.sym_alloc_seq == 1 or not name.endswith("#") else f"{name}{self.sym_alloc_seq}", z3.BitVecSort(64), z3.BitVecSort(8))
+            # index by absolute address: shift the named array by the block base
+            x = z3.BitVec("__i", 64)
+            arr = z3.Lambda([x], z3.Select(base_arr, x - z3.BitVecVal(a, 64)))
+            self.arrays.append([a, a + size, arr])
+            self.sym_bases = getattr(self, "sym_bases", {})
+            self.sym_bases[name] = a
         return a
 
     # ---------------------------------------------------------------- values
@@ -502,6 +646,8 @@ class Machine:
         if k in ("array", "vector"):
             es = self.layout.size(t0[2])
             return [self.load_typed(addr + i * es, t0[2]) for i in range(t0[1])]
+        if k == "float":
+            return self.load_bytes(addr, self.layout.size(t0))  # raw bits; no float arithmetic is modelled
         raise Unsupported(f"load of {t0}")
 
     def store_typed(self, addr, t, v):
@@ -529,6 +675,9 @@ class Machine:
             es = self.layout.size(t0[2])
             for i, ev in enumerate(v):
                 self.store_typed(addr + i * es, t0[2], ev)
+            return
+        if k == "float":
+            self.store_bytes(addr, v, self.layout.size(t0))
             return
         raise Unsupported(f"store of {t0}")
 
@@ -569,6 +718,11 @@ class Machine:
         if op in ("memcpy", "memmove"):
             dst, src, n = self.resolve_addr(args[0]), self.resolve_addr(args[1]), args[2]
             n = self.resolve_addr(n)
+            if self.arrays and (self._array_for(src) is not None or self._array_for(dst) is not None):
+                vals = [self.load_bytes(src + i, 1) for i in range(n)]
+                for i, v in enumerate(vals):
+                    self.store_bytes(dst + i, v, 1)
+                return None
             mem = self.mem
             cells = [mem.get(src + i, 0) for i in range(n)]
             for i, c in enumerate(cells):
@@ -576,8 +730,12 @@ class Machine:
             return None
         if op == "memset":
             dst, b, n = self.resolve_addr(args[0]), args[1], self.resolve_addr(args[2])
+            if self.arrays and self._array_for(dst) is not None:
+                for i in range(n):
+                    self.store_bytes(dst + i, b, 1)
+                return None
             for i in range(n):
-                self.mem[dst + i] = b if type(b) is int else b
+                self.mem[dst + i] = b if type(b) is int else (z3.ZeroExt(0, b), 0)
             return None
         if op == "threadlocal":
             return args[0]
@@ -675,6 +833,7 @@ class Machine:
         for (pt, pn), a in zip(fn.params, args):
             frame[pn] = a
         saved_sp = self.sp
+        saved_allocas = len(self.allocas)
         blocks = fn.blocks
         label = fn.order[0]
         prev = None
@@ -708,16 +867,18 @@ class Machine:
                     if op == "load":
                         addr = val(frame, IR.PTR, ins[3])
                         if type(addr) is not int:
-                            addr = self.resolve_addr(addr)
-                        frame[ins[0]] = self.load_typed(addr, ins[2])
+                            frame[ins[0]] = self.load_sym(addr, ins[2])
+                        else:
+                            frame[ins[0]] = self.load_typed(addr, ins[2])
                     elif op == "gep":
                         base = val(frame, IR.PTR, ins[3])
                         frame[ins[0]] = self.gep(frame, base, ins[2], ins[4])
                     elif op == "store":
                         addr = val(frame, IR.PTR, ins[4])
                         if type(addr) is not int:
-                            addr = self.resolve_addr(addr)
-                        self.store_typed(addr, ins[2], val(frame, ins[2], ins[3]))
+                            self.store_sym(addr, ins[2], val(frame, ins[2], ins[3]))
+                        else:
+                            self.store_typed(addr, ins[2], val(frame, ins[2], ins[3]))
                     elif op == "icmp":
                         frame[ins[0]] = self.icmp(ins[2], ins[3], val(frame, ins[3], ins[4]), val(frame, ins[3], ins[5]))
                     elif op == "bin":
@@ -850,6 +1011,9 @@ class Machine:
                     raise Unsupported(f"fell off block {label} in {fn.name}")
         finally:
             self.sp = saved_sp
+            del self.allocas[saved_allocas:]
+            if self.arrays:
+                self.arrays = [o for o in self.arrays if not (STACK_BASE <= o[0] and o[0] >= saved_sp)]
             self.depth -= 1
 
     # ---------------------------------------------------------------- instruction helpers
